@@ -262,6 +262,13 @@ def run(ctx: Ctx) -> None:
         plan.append(("mutants", d, (ident[30:] if d in ("", "duckdb", "bigquery", "tsql") else ident[30:130]) if quick else ident[120:], lv2, False))
         plan.append(("soups", d, 3 if (quick or d) else 4, lv2))
         plan.append(("pump", d, lv2))
+    # (f) every delete / duplicate / swap mutant and token prefix of every statement the repository's own dialect tests
+    # contain, in that statement's dialect (dialect-only syntax: COPY options, WITH (...) properties, hints, procedural bodies)
+    by_d = {}
+    for d, sql in corpus.dialect_test_sql():
+        by_d.setdefault(d, []).append(sql)
+    for d, sqls in sorted(by_d.items()):
+        plan.append(("mutants", d, sqls, ["IMMEDIATE", "IGNORE"] if quick else ["IMMEDIATE", "RAISE", "WARN", "IGNORE"], False))
     for d in (dialects if quick else all_dialects()):
         plan.append(("chars", d, char_alphabet(), 3 if quick else 4, ["IMMEDIATE"]))
     res = ctx.run_shards(worker, ctx.jobs * 4, plan, quick)
@@ -281,7 +288,7 @@ def run(ctx: Ctx) -> None:
             "evaluations": res["evaluations"],
             "distinct_nontrivial": res["nontrivial"],
             "rule": "every 1-token mutant (delete/duplicate/swap; insert of each of 40 menu tokens for the simplest seeds) and every prefix of "
-                    "G_core k<=1 statements and an identity.sql slice; every token soup of length <= 3 over the 40-token menu; every "
+                    "G_core k<=1 statements, of identity.sql and of every statement of tests/dialects/*.py in its own dialect (" + str(len(corpus.dialect_test_sql())) + " seeds); every token soup of length <= 3 over the 40-token menu; every "
                     "character string of length <= 3 over a 34-character alphabet; 25 pumping families (n up to 64 / nesting 32); x dialects x "
                     "error levels; every returned tree generated in its own and the base dialect. non-trivial = runs that ended in a "
                     "sqlglot error (the error paths were driven).",
